@@ -85,6 +85,25 @@ func runC18(r *Run) {
 			}
 		}
 	}
+	if cf == nil {
+		// no match of the recognised form: fall back to the function that calls labels.Selector.Matches
+		// at all, so that R4 can say what is wrong with the selector it matches
+		for _, fn := range sortedFuncs(reach) {
+			if !r.Prog.IsRuleSite(fn) || fn == rec {
+				continue
+			}
+			for _, ci := range callsIn(fn) {
+				c := ci.Common()
+				if c.IsInvoke() && c.Method.Name() == "Matches" && c.Method.Pkg() != nil && c.Method.Pkg().Path() == "k8s.io/apimachinery/pkg/labels" {
+					if cf != nil && cf != fn {
+						cf = nil
+						break
+					}
+					cf = fn
+				}
+			}
+		}
+	}
 	if cf == nil || cf == rec {
 		r.Fatal("setting Reconcile: no function (other than Reconcile) reachable from it matches a setting's node selector against node labels (conflict search not found)")
 		return
@@ -500,6 +519,16 @@ func c18ConflictSearch(r *Run, cf *ssa.Function) *c18Scan {
 	if loopE == nil {
 		r.Undecided("C18.R4", "scan loop", pos, fnName, "the scanned setting is not the element of a loop")
 		return nil
+	}
+
+	// leaving the loops: every node and, up to the reconciled setting, every setting is examined
+	c18LoopExits(r, cf, ff, loopE, errIdx, "scan loop over the settings",
+		"the scan over the sorted settings is left (other than by exhaustion or an error return) only after the step of the reconciled setting: settings sorted after it cannot conflict with it, the ones before it must all be examined",
+		func(fs factSet) bool { return fs.any(true, isNameEq) })
+	if loopN != nil {
+		c18LoopExits(r, cf, ff, loopN, errIdx, "loop over the nodes",
+			"the loop over the nodes is left only by exhaustion or by returning an error: a conflict on any node the reconciled setting selects must be found",
+			func(factSet) bool { return false })
 	}
 
 	// record updates
@@ -1967,6 +1996,11 @@ func c18ScanCaller(r *Run, scanFn *ssa.Function, scan *c18Scan, reach map[*ssa.F
 			r.Undecided("C18.R4", "scan helper call: record", r.Prog.Pos(instrPos(rr)), fnName, "the record is used by "+rr.String()+" in the caller")
 		}
 	}
+	if loopN != nil {
+		c18LoopExits(r, caller, computeFacts(caller), loopN, caller.Signature.Results().Len()-1, "loop over the nodes",
+			"the loop over the nodes is left only by exhaustion or by returning an error: a conflict on any node the reconciled setting selects must be found",
+			func(factSet) bool { return false })
+	}
 	// the helper's error is propagated unchanged and is the caller's only error
 	errIdx := scanFn.Signature.Results().Len() - 1
 	cErr := caller.Signature.Results().Len() - 1
@@ -2012,4 +2046,52 @@ func c18ScanCaller(r *Run, scanFn *ssa.Function, scan *c18Scan, reach map[*ssa.F
 	}
 	c18Skips(r, scanFn, scan, dir)
 	return caller
+}
+
+// c18LoopExits checks every CFG edge that leaves loop from a block other than its header (the
+// header's own exit is exhaustion): the target must return a non-nil error, or the facts on the
+// edge must satisfy allowed.
+func c18LoopExits(r *Run, fn *ssa.Function, ff *FuncFacts, loop *loopInfo, errIdx int, what, need string, allowed func(factSet) bool) {
+	n := 0
+	okAll, detail := true, ""
+	var at token.Pos
+	for _, u := range fn.Blocks {
+		if !loop.Blocks[u] || u == loop.Header {
+			continue
+		}
+		for _, v := range u.Succs {
+			if loop.Blocks[v] {
+				continue
+			}
+			n++
+			if ret := returnOf(v); ret != nil && errIdx >= 0 && errIdx < len(ret.Results) {
+				res := ret.Results[errIdx]
+				nonNil := !isNilConst(unwrap(res))
+				if phi, isPhi := res.(*ssa.Phi); isPhi {
+					for i, e := range phi.Edges {
+						if phi.Block().Preds[i] == u && isNilConst(unwrap(e)) {
+							nonNil = false
+						}
+					}
+				}
+				if nonNil {
+					continue
+				}
+			}
+			if allowed(ff.FactsAtEdge(u, v)) {
+				continue
+			}
+			okAll = false
+			at = instrPos(u.Instrs[len(u.Instrs)-1])
+			detail = "the loop is left (break / early return without error) at a point where this is not established; facts on the edge: " + shortSet(ff.FactsAtEdge(u, v))
+		}
+	}
+	pos := r.Prog.Pos(loop.Header.Instrs[len(loop.Header.Instrs)-1].Pos())
+	if !okAll {
+		pos = r.Prog.Pos(at)
+	}
+	o := r.Check("C18.R4", "exits of the "+what, pos, shortFunc(fn), need, okAll, detail)
+	if okAll && detail == "" {
+		o.Detail = fmt.Sprintf("%d exit edge(s) besides exhaustion, all error returns or allowed", n)
+	}
 }
